@@ -80,6 +80,11 @@ def gen_history(rng, strings, idx):
             continue
         if op in ("write", "append"):
             s = rng.choice(strings)
+            kk = rng.random()
+            if kk < 0.2 and meta_strings:
+                s = rng.choice(meta_strings)          # a content written before in this history (a write that "changes nothing", or nearly)
+            elif kk < 0.3:
+                s = ""
             S = gen_strings.go_quote(s)
             have = [(sp_, cn_) for sp_, cn_ in paths if cn_ in store]
             k0 = rng.random()
@@ -171,6 +176,20 @@ def directed_histories():
             out.append(pipeline.Case("dh%d" % k, {"main.tsh": src.encode()},
                                      meta=dict(src=src, expected_out="".join(o + "\n" for o in exp), store={canon: b"second\nmore\n"}, strings=[], in_func=in_func)))
             k += 1
+    # an overwriting write when the file holds ALMOST what is written - the same text followed by empty lines, the same text without its end, a
+    # longer text with the same beginning: afterwards the file holds the content and one line break, whatever it held (round 15: C17-H, an
+    # overwrite skipped when `$(cat < p)` - which drops every trailing line break - equals the new content)
+    for s_ in ("alpha", "", "a b", "-n"):
+        for pre, n_empty in ((s_, 1), (s_, 2), (s_ + "x", 0), (s_, 0), ("", 2)):
+            for in_func in (False, True):
+                body = ['write("r.txt", %s)' % gen_strings.go_quote(pre)] + ['write("r.txt", "", true)'] * n_empty + \
+                       ['write("r.txt", %s)' % gen_strings.go_quote(s_), 'print("[" + read("r.txt") + "]")', 'write("r.txt", "beta", true)', 'print("[" + read("r.txt") + "]")']
+                exp = ["[" + s_ + "]", "[" + s_, "beta]"]
+                lines = (["func ops() {"] + ["\t" + l for l in body] + ["}", "ops()"]) if in_func else body
+                src = "\n".join(lines) + "\n"
+                out.append(pipeline.Case("dh%d" % k, {"main.tsh": src.encode()},
+                                         meta=dict(src=src, expected_out="".join(o + "\n" for o in exp), store={"r.txt": (s_ + "\nbeta\n").encode()}, strings=[], in_func=in_func)))
+                k += 1
     loop = ('n := 0\nwrite("state.txt", "run")\nfor read("state.txt") == "run" && n < 5 {\n\tn++\n\tif n == 2 {\n\t\twrite("state.txt", "stop")\n\t}\n}\nprint("rounds", n)\n'
             'm := 0\nwrite("./state.txt", "go")\nfor m < 4 && read("state.txt") == "go" {\n\tm++\n\twrite("state.txt", "halt")\n}\nprint("rounds", m)\n')
     out.append(pipeline.Case("dh%d" % k, {"main.tsh": loop.encode()},
